@@ -157,7 +157,7 @@ func genTenant(r *core.PRNG) TenantSpec {
 	if cfg.ES > 2 {
 		cfg.ES = 2
 	}
-	rew := r.Chance(1, 3)
+	rew := r.Chance(1, 2)
 	if rew {
 		cfg.MultiSec, cfg.SI = true, true // units of several sections: data stay buffered between calls
 	}
